@@ -75,6 +75,14 @@ def gen_foreign(rng):
                 if not any(kk == k for kk, _ in pairs):
                     pairs = pairs + [(k, v)]
                     rng.shuffle(pairs)
+            name = sid.lstrip('.')
+            if name in ('diff', 'meta', 'change', 'file') and \
+                    rng.random() < 0.25 and \
+                    not any(kk == 'indent' for kk, _ in pairs):
+                # options that mean something on another kind of section
+                # are just producer options here
+                pairs = pairs + [('indent', rng.choice(['1', '2', '4',
+                                                        '8']))]
             return pairs
     st = Style(rng=rng, extra=extra,
                shuffle=rng.random() < 0.7,
